@@ -722,6 +722,10 @@ class Interp:
                         if hasattr(x, at):
                             setattr(r, at, getattr(x, at))
                     return r
+                if isinstance(op, ast.Mult) and isinstance(x.level, tuple) and x.level[0] == 'fx':
+                    r = Idx(('bytes', x.level[1]), x.base, None, x.origin, 0)
+                    r.byte_scale = y.v          # element index scaled to bytes with a literal item size
+                    return r
                 if isinstance(op, ast.Mult) and y.v == 2:
                     return Idx(('fx', x.level), x.base, 0, x.origin, 0)
                 if isinstance(op, (ast.FloorDiv,)) and y.v == 2 and not swapped:
@@ -1277,6 +1281,12 @@ class Interp:
                     return r
                 return TOP
             return a0 if isinstance(a0, (Off, OffC, Vals, Arr, Rows, Mask, Sel)) else TOP
+        if short == 'frombuffer':
+            off = kwargs.get('offset')
+            if isinstance(off, Idx) and isinstance(getattr(off, 'byte_scale', None), int):
+                self.err('unit', node, f'byte offset into the data buffer computed with a hard-coded item size of {off.byte_scale}: the coordinate subtype '
+                                       f'(float32/int32/int16 ...) decides the item size')
+            return TOP
         if short == 'arange':
             if isinstance(a0, Idx) and len(args) == 1:
                 return Sel(a0.level)
